@@ -1,10 +1,10 @@
 #!/bin/sh
 # usage: seedeval.sh <property id> <variant> [check ids to run, default the property's own] 
-# Evaluates a sub-agent's seeded change in the scratch worktree /tmp/mut (never in /repo).
-id=$1; var=$2; shift 2; prop=C$(echo $id | tr -d "A-Z"); checks=${*:-$prop}
+# Evaluates a sub-agent's seeded change in the scratch worktree $MUT (never in /repo).
+MUT=${MUT:-/tmp/mut}; id=$1; var=$2; shift 2; prop=C$(echo $id | tr -d "A-Z"); checks=${*:-$prop}
 out=/tmp/seed/$id.out
-cd /tmp/mut && git checkout -q -- . && git clean -qfd
-demo() { if [ -f $out/$var.demo.py ]; then timeout 600 /venv/bin/python $out/$var.demo.py /tmp/mut >/tmp/seed/$id.$var.demo.log 2>&1; else timeout 600 sh $out/$var.demo.sh /tmp/mut >/tmp/seed/$id.$var.demo.log 2>&1; fi; echo $?; }
+cd $MUT && git checkout -q -- . && git clean -qfd
+demo() { if [ -f $out/$var.demo.py ]; then timeout 600 /venv/bin/python $out/$var.demo.py $MUT >/tmp/seed/$id.$var.demo.log 2>&1; else timeout 600 sh $out/$var.demo.sh $MUT >/tmp/seed/$id.$var.demo.log 2>&1; fi; echo $?; }
 echo "== $id-$var"
 echo "demo on clean tree: rc=$(demo)"
 git apply $out/$var.patch.diff || { echo "PATCH DOES NOT APPLY"; exit 1; }
@@ -13,6 +13,6 @@ echo "pytest: $(/venv/bin/python -m pytest -q -p no:cacheprovider --timeout=900 
 echo "demo with patch: rc=$(demo)"
 cd /verif
 for c in $checks; do
-  VERIF_REPO=/tmp/mut ./check $c --tier quick 2>&1 | grep -E "VIOLATION|what:|INCONCLUSIVE|KNOWN| held | VIOLATED| inconclusive" | head -7
+  VERIF_REPO=$MUT ./check $c --tier quick 2>&1 | grep -E "VIOLATION|what:|INCONCLUSIVE|KNOWN| held | VIOLATED| inconclusive" | head -7
 done
-cd /tmp/mut && git checkout -q -- . && git clean -qfd
+cd $MUT && git checkout -q -- . && git clean -qfd
